@@ -651,7 +651,14 @@ func cmdSupervise(args []string) int {
 					v.Fail = o.Fail
 				}
 			} else {
-				reproduced = o.Fail != nil && o.Fail.Invariant == v.Fail.Invariant && o.Fail.Step == v.Fail.Step
+				// the same named invariant must fail; the step is taken from the fresh
+				// process (a worker that had already run other plans may have met the
+				// violation at another step of the same plan) so that the replay file
+				// records exactly what a fresh process does
+				reproduced = o.Fail != nil && o.Fail.Invariant == v.Fail.Invariant
+				if reproduced {
+					v.Fail = o.Fail
+				}
 			}
 			v.Death = died
 			if !reproduced {
